@@ -38,16 +38,16 @@ pub fn judge_threaded(c: &FCase, base: &Outcome, o: &Outcome, profile: &str) -> 
             product_predicate(&c.n, fs, &entry)?;
             if let Outcome::Ok(b) = base {
                 if !c.factors.is_empty() && *b == c.factors {
-                    ensure!(
-                        *fs == c.factors,
-                        format!("{}|incomplete-with-threads", entry),
-                        "factor({}, {}) with threads={:?} returned {:?} but the single-threaded run returned the complete factorisation {:?}",
-                        c.n,
-                        c.algo,
-                        c.prefs.threads,
-                        fs,
-                        b
-                    );
+                    if *fs != c.factors {
+                        return Err(Fail::new(
+                            format!("{}|incomplete-with-threads", entry),
+                            format!(
+                                "factor({}, {}) with threads={:?} returned {:?} but the single-threaded run returned the complete factorisation {:?}",
+                                c.n, c.algo, c.prefs.threads, fs, b
+                            ),
+                        )
+                        .with_detail(format!("n={},use_double={:?}", c.n, c.prefs.use_double)));
+                    }
                 }
             }
             Ok(())
@@ -61,7 +61,8 @@ pub fn judge_threaded(c: &FCase, base: &Outcome, o: &Outcome, profile: &str) -> 
                             "factor({}, {}) with threads={:?} failed but the single-threaded run returned the complete factorisation",
                             c.n, c.algo, c.prefs.threads
                         ),
-                    ));
+                    )
+                    .with_detail(format!("n={},use_double={:?}", c.n, c.prefs.use_double)));
                 }
             }
             Ok(())
